@@ -949,6 +949,39 @@ fn generate_rearranged(mut rng: Rng, seed: u64, tier: Tier, ptr: usize) -> Case 
         }
         notes.push("arrangement:import_style".to_string());
     }
+    // Bulk: the same items, every function with dozens of pointer parameters more, items and
+    // modules under hundreds of doc lines whose brackets do not match. Nothing about what
+    // exists or what embeds what has changed.
+    {
+        let mut q = p.clone();
+        let n = q.items.len();
+        let open = *rng.pick(&["(", "[", "{", "((", "<"]);
+        let doc: String = (0..rng.range(260, 400))
+            .map(|i| format!(" item {i}{open} see above"))
+            .collect::<Vec<_>>()
+            .join("\n");
+        for i in 0..n {
+            if rng.chance(1, 3) {
+                q.items[i].doc = Some(doc.clone());
+            }
+            let extra: Vec<(String, Ty)> = (0..rng.range(20, 48))
+                .map(|k| {
+                    let t = Ty::Item(rng.below(n));
+                    (format!("extra{k}"), if rng.chance(1, 2) { t.cptr() } else { t.mptr() })
+                })
+                .collect();
+            if let ItemKind::Type { vftable, impl_funcs, .. } = &mut q.items[i].kind {
+                for f in vftable.iter_mut().flat_map(|v| v.funcs.iter_mut()).chain(impl_funcs.iter_mut()) {
+                    f.args.extend(extra.iter().cloned());
+                }
+            }
+        }
+        if let Some(m) = q.modules.first_mut() {
+            m.doc = Some(doc);
+        }
+        worlds.push(World::from_files(ptr, q.files()));
+        notes.push("arrangement:bulk".to_string());
+    }
     let mut q = p.clone();
     let nm = q.modules.len();
     if nm > 1 {
@@ -1009,7 +1042,30 @@ fn same_items_same_verdict(
     // them) stay out of the comparison.
     let mut comparable: BTreeSet<usize> = BTreeSet::new();
     for (wi, w) in case.worlds.iter().enumerate() {
-        let Ok(parsed) = parse_world(w) else { continue };
+        let parsed = match parse_world(w) {
+            Ok(p) => p,
+            // A presentation of the same project that pyxis's parser does not even read,
+            // while it reads the first one: compared like the others (the build will fail).
+            Err(_) if wi > 0 && expect.as_ref().is_some_and(|e| !e.0) => {
+                // ... provided the harness's own token-level count finds the same
+                // declarations in it (a world that lost them is another program).
+                let mut declared: BTreeSet<String> = BTreeSet::new();
+                let mut readable = true;
+                for (_, blob) in w.module_files() {
+                    match crate::inventory::census(&blob.lossy()) {
+                        Some(c) => declared.extend(
+                            c.types.into_iter().chain(c.enums).chain(c.extern_types),
+                        ),
+                        None => readable = false,
+                    }
+                }
+                if readable && Some(&declared) == expect.as_ref().map(|e| &e.1) {
+                    comparable.insert(wi);
+                }
+                continue;
+            }
+            Err(_) => continue,
+        };
         let m = Model::build(&parsed);
         if !m.duplicates.is_empty() {
             continue;
